@@ -310,7 +310,7 @@ def effects(ctx):
     ctx.ob("FRM", site, "the window is overwritten with (to - from) rows drawn with replacement from that pool", ok, "", mu[0] if mu else None)
     # per-class weights: p_class / class size for the classes present in the window
     pe = [e for e in tr.mutations("_p_distribution") if e.how == "method:extend"]
-    ctx.ob("ROLE", site, "per-row probabilities collected for every class", len(pe) == 1, "")
+    ctx.anchor(site, "per-row probabilities collected for every class", len(pe) == 1, "")
 
 
 def _rooted_local(t, name):
